@@ -18,6 +18,7 @@ import (
 	"gorm.io/gorm"
 	"gorm.io/gorm/clause"
 
+	"verifharness/cmd/c18/probe"
 	"verifharness/cmd/c18/srcfacts"
 	"verifharness/gdb"
 	"verifharness/lib"
@@ -191,28 +192,31 @@ type fam struct {
 	rows  bool                               // SELECTs go through the Row callbacks (row.go)
 }
 
+// The internal Session literals on a derivation path are named by their ROLE — the set of fields the
+// literal sets (sorted, comma-joined) — never by the file or function they stand in: srcfacts.Role
+// resolves a role to the worst-formed literal of the current source that sets exactly those fields.
 const (
-	litBegin      = "finisher_api.go:DB.Begin#0"
-	litAssoc0     = "callbacks/associations.go:saveAssociations#0"
-	litAssoc1     = "callbacks/associations.go:saveAssociations#1"
-	litJoin0      = "callbacks/associations.go:SaveAfterAssociations#0"
-	litJoin1      = "callbacks/associations.go:SaveAfterAssociations#1"
-	litPreload    = "callbacks/preload.go:preloadDB#0"
-	litPreloadEP  = "callbacks/preload.go:preloadEntryPoint#0"
-	litDelAssoc0  = "callbacks/delete.go:DeleteBeforeAssociations#0"
-	litDelAssoc1  = "callbacks/delete.go:DeleteBeforeAssociations#1"
-	litAssocSave0 = "association.go:Association.saveAssociation#0"
-	litAssocSave1 = "association.go:Association.saveAssociation#1"
-	litAssocDel   = "association.go:Association.Delete#0"
-	litAssocCond  = "association.go:Association.buildCondition#0"
-	litFIB0       = "finisher_api.go:DB.FindInBatches#0"
-	litFIB1       = "finisher_api.go:DB.FindInBatches#1"
-	litFIB2       = "finisher_api.go:DB.FindInBatches#2"
-	litSave0      = "finisher_api.go:DB.Save#0"
-	litSave1      = "finisher_api.go:DB.Save#1"
-	litFOC        = "finisher_api.go:DB.FirstOrCreate#0"
-	litCIB        = "finisher_api.go:DB.CreateInBatches#0"
-	litTx         = "finisher_api.go:DB.Transaction#0"
+	litBegin      = "Context,NewDB"                                           // Begin: getInstance().Session(&Session{Context: <own>, NewDB: …})
+	litAssoc0     = "NewDB"                                                   // saveAssociations: db.Session(&Session{NewDB: true})
+	litAssoc1     = "DisableNestedTransaction,FullSaveAssociations,SkipHooks" // … .Session(&Session{FullSaveAssociations, SkipHooks, DisableNestedTransaction})
+	litJoin0      = "NewDB"                                                   // many2many join rows
+	litJoin1      = "DisableNestedTransaction,SkipHooks"
+	litPreload    = "Context,Initialized,NewDB,SkipHooks" // preloadDB
+	litPreloadEP  = "Context,SkipHooks"                   // preloadEntryPoint
+	litDelAssoc0  = "NewDB"                               // DeleteBeforeAssociations
+	litDelAssoc1  = "NewDB"
+	litAssocSave0 = "" // association mode: Session(&Session{})
+	litAssocSave1 = ""
+	litAssocDel   = ""
+	litAssocCond  = "QueryFields"
+	litFIB0       = "" // FindInBatches
+	litFIB1       = ""
+	litFIB2       = "NewDB"
+	litSave0      = "Initialized" // Save
+	litSave1      = "SkipHooks"
+	litFOC        = ""      // FirstOrCreate
+	litCIB        = ""      // CreateInBatches
+	litTx         = "NewDB" // Transaction
 )
 
 func joinedNested(t string) []string {
@@ -608,6 +612,9 @@ func verbOf(q string) string {
 
 var wn int
 
+// copies: the context-copying behaviour of the running gorm (probe.Measure)
+var copies probe.Copies
+
 func runCase(in Input, facts srcfacts.Facts) Obs {
 	wn++
 	dsn := fmt.Sprintf("file:c18_%d_%d?mode=memory&cache=shared", os.Getpid(), wn)
@@ -708,15 +715,16 @@ func runCase(in Input, facts srcfacts.Facts) Obs {
 	return o
 }
 
-// attribute names the derivation path, the call site and (PrepareStmt) the wrapper's inner site of an event.
+// attribute names, without using any file or function name of gorm, the derivation path of an event
+// (roles of the internal Session literals, from what the harness knows: the family it ran and the
+// statement's table / text), the driver method of the callback / finisher call site that issued it,
+// and (PrepareStmt) the method of the wrapper's own call site.
 func attribute(f *fam, e recdrv.Event, prep bool) (path []string, site, inner string) {
-	inTx := e.Tx != 0
 	if e.Kind == "begin" {
 		path = []string{litBegin}
-		site = "finisher_api.go|DB.Begin|BeginTx|0"
+		site = "BeginTx"
 		if prep {
-			site = "finisher_api.go|DB.Begin|BeginTx|1"
-			inner = "prepare_stmt.go|PreparedStmtDB.BeginTx|BeginTx|0"
+			inner = "BeginTx"
 		}
 		return
 	}
@@ -731,43 +739,17 @@ func attribute(f *fam, e recdrv.Event, prep bool) (path []string, site, inner st
 		// the statement about to run decides; RETURNING / SELECT are queries
 		isQuery = verb == "SELECT" || strings.Contains(strings.ToUpper(e.Query), "RETURNING")
 	}
-	m := "ExecContext"
+	site = "ExecContext"
 	if isQuery {
-		m = "QueryContext"
-	}
-	switch verb {
-	case "INSERT":
-		site = "callbacks/create.go|Create|" + m + "|0"
-	case "UPDATE":
-		site = "callbacks/update.go|Update|" + m + "|0"
-		if strings.Contains(f.name, "exec") {
-			site = "callbacks/raw.go|RawExec|ExecContext|0"
+		site = "QueryContext"
+		if f.name == "row" && verb == "SELECT" {
+			site = "QueryRowContext"
 		}
-	case "DELETE":
-		site = "callbacks/delete.go|Delete|" + m + "|0"
-	case "SELECT":
-		site = "callbacks/query.go|Query|QueryContext|0"
-		if f.rows {
-			site = "callbacks/row.go|RowQuery|QueryContext|0"
-			if f.name == "row" {
-				site = "callbacks/row.go|RowQuery|QueryRowContext|0"
-			}
-		}
-	default: // SAVEPOINT / ROLLBACK TO ...
-		site = "callbacks/raw.go|RawExec|ExecContext|0"
 	}
 	if prep {
-		w := "PreparedStmtDB"
-		if inTx {
-			w = "PreparedStmtTX"
-		}
-		switch {
-		case e.Kind == "prepare":
-			inner = "prepare_stmt.go|PreparedStmtDB.prepare|PrepareContext|0"
-		case f.name == "row" && verb == "SELECT":
-			inner = "prepare_stmt.go|" + w + ".QueryRowContext|QueryRowContext|0"
-		default:
-			inner = "prepare_stmt.go|" + w + "." + m + "|" + m + "|0"
+		inner = site
+		if e.Kind == "prepare" {
+			inner = "PrepareContext"
 		}
 	}
 	return
@@ -788,21 +770,26 @@ func gForm(f string) string {
 	return "FUnknown"
 }
 
-func siteForm(facts srcfacts.Facts, key string) string {
-	p := strings.Split(key, "|")
-	n := 0
-	fmt.Sscan(p[3], &n)
-	s, ok := facts.Site(p[0], p[1], p[2], n)
+// siteForm: the worst context form among the source's call sites of that driver method — callback /
+// finisher sites (wrapper = false) or sites that pass on a context parameter (wrapper = true).
+func siteForm(facts srcfacts.Facts, method string, wrapper bool) string {
+	f, ok := facts.SiteForm(method, wrapper)
 	if !ok {
 		return "FUnknown"
 	}
-	return gForm(s.Form)
+	return gForm(f)
 }
 
-func gLit(facts srcfacts.Facts, key string) string {
-	l, ok := facts.Find(key)
+func gLit(facts srcfacts.Facts, role string) string {
+	l, ok := facts.Role(role)
 	if !ok {
-		return "(mk_slit FUnknown false false false)"
+		// the current source has no literal setting exactly these fields: assume one that sets them
+		has := func(f string) bool { return strings.Contains(","+role+",", ","+f+",") }
+		form := "FAbsent"
+		if has("Context") {
+			form = "FStmt"
+		}
+		return lib.App("mk_slit", form, lib.Bool(has("NewDB")), lib.Bool(has("Initialized")), lib.Bool(has("SkipHooks") || has("PrepareStmt")))
 	}
 	return lib.App("mk_slit", gForm(l.CtxForm), lib.Bool(l.NewDB == "true" || l.NewDB == "expr"), lib.Bool(l.Init), lib.Bool(l.Own()))
 }
@@ -822,13 +809,13 @@ func term(in Input, o Obs, facts srcfacts.Facts) string {
 			}
 			inner := "None"
 			if e.Inner != "" {
-				inner = "(Some " + siteForm(facts, e.Inner) + ")"
+				inner = "(Some " + siteForm(facts, e.Inner, true) + ")"
 			}
-			evs[j] = lib.App("mk_ev", kind, lib.List(path), siteForm(facts, e.Site), inner, lib.Z(int64(e.Tag)), lib.Bool(e.Failed), lib.Bool(e.Done))
+			evs[j] = lib.App("mk_ev", kind, lib.List(path), siteForm(facts, e.Site, false), inner, lib.Z(int64(e.Tag)), lib.Bool(e.Failed), lib.Bool(e.Done))
 		}
 		ops[i] = lib.App("mk_opc", lib.Z(int64(op.Tag)), lib.Bool(op.Cancelled), lib.Bool(o.Ops[i].Err != ""), lib.Bool(o.Ops[i].Unchanged), lib.List(evs))
 	}
-	cp := lib.App("mk_copies", lib.Bool(facts.GetInstanceCopies), lib.Bool(facts.CloneCopies), lib.Bool(facts.SessionAssignsCfg))
+	cp := lib.App("mk_copies", lib.Bool(copies.GetInstance), lib.Bool(copies.Clone), lib.Bool(copies.Session))
 	return lib.App("mk_case", cp, lib.List(ops))
 }
 
@@ -848,6 +835,8 @@ func main() {
 		repo = v
 	}
 	facts, err := srcfacts.Extract(repo)
+	lib.Must(err)
+	copies, err = probe.Measure()
 	lib.Must(err)
 	out := lib.NewOut(a.Out, "C18")
 	out.PerFile = 200
